@@ -93,7 +93,7 @@ def run(ctx, eng):
                    'checked by an assertion: %s' % (desc, reason),
                    node=s['node'])
     ctx.record('emit_sites', n_sites)
-    ctx.floor('emit_sites', 12)
+    ctx.floor('emit_sites', 10)
     # explicit raises / raising calls after an append
     from . import flow
     I = flow.stream_inliner(eng)
@@ -143,6 +143,12 @@ def run(ctx, eng):
                'true (possibly negative) minimum of the two windows')
     cm.include(ctx, eng, 'C22', {'ORD.lookup-first'},
                'push_stream on a parent that is gone reports it as gone')
+    cm.include(ctx, eng, 'C09', {'ORD.id-bookkeeping', 'ARITH.lookup',
+                                 'FLOW.lookup'},
+               'closed-and-forgotten and never-used ids are told apart by '
+               'the watermarks: a creation that is refused must leave them '
+               'alone, and the lookup reads the watermark of the id\'s own '
+               'direction')
     cm.include(ctx, eng, 'C24', {'ORD.args', ('FLOW.send',
                                               'advertise_alternative_service')},
                'advertise_alternative_service: exactly one of origin / '
